@@ -45,7 +45,7 @@ Proof. induction ops as [| o r IH]; intros s obs s' H; destruct obs as [| x xs];
   - reflexivity.
   - destruct (check_step cp s o x); [eapply IH; eassumption | discriminate]. Qed.
 
-Lemma wf_init cp p0 hc0 c0 : cap_ok cp -> 0 <= hc0 <= p0 -> p0 mod 8 = 0 -> p0 - hc0 < two31 -> wf (init cp p0 hc0 c0).
+Lemma wf_init cp p0 hc0 c0 : cap_ok cp -> 0 <= hc0 <= p0 -> p0 mod 8 = 0 -> wf (init cp p0 hc0 c0).
 Proof. intros Hc. intros. pose proof (cap_ok_range _ Hc).
   constructor; cbn [init r_cap r_head r_tail r_hc r_slots]; auto; try lia; try constructor. Qed.
 
@@ -54,19 +54,19 @@ Proof. intros Hc. constructor; cbn [init o_q o_h o_t o_ids abs r_slots r_head r_
   exists O. split; [lia |]. split; [intros x; cbn; tauto |]. rewrite Z.add_0_r. symmetry. apply wrap64_id. assumption. Qed.
 
 Definition seq_domain (cp p0 hc0 c0 : Z) (ops : list op) : Prop :=
-  cap_ok cp /\ 0 <= hc0 <= p0 /\ p0 mod 8 = 0 /\ p0 - hc0 < two31 /\ in_i64 c0 = true /\
+  cap_ok cp /\ 0 <= hc0 <= p0 /\ p0 mod 8 = 0 /\ in_i64 c0 = true /\
   p0 + 2 * cp * Z.of_nat (length ops) <= two62 /\ Forall op_ok ops.
 
 Lemma seq_run_ok m cp p0 hc0 c0 ops : seq_domain cp p0 hc0 c0 ops ->
   wf (fst (run m (init cp p0 hc0 c0) ops)) /\
   exists s', check_to cp (mkOst [] p0 p0 []) ops (snd (run m (init cp p0 hc0 c0) ops)) = Some s' /\
              rel c0 (length ops) (fst (run m (init cp p0 hc0 c0) ops)) s'.
-Proof. intros (Hc & Hh & H8 & Hs & Hi & Hb & Hok).
+Proof. intros (Hc & Hh & H8 & Hi & Hb & Hok).
   pose proof (cap_ok_range _ Hc).
   assert (L : Z.of_nat (length ops) < two64).
   { unfold two62, two64 in *. nia. }
   destruct (run_ok m c0 ops (init cp p0 hc0 c0) (mkOst [] p0 p0 []) 0
-              (wf_init _ _ _ _ Hc Hh H8 Hs) (rel_init _ _ _ _ Hi) Hb Hok L) as (W & _ & s' & C & R).
+              (wf_init _ _ _ _ Hc Hh H8) (rel_init _ _ _ _ Hi) Hb Hok L) as (W & _ & s' & C & R).
   split; [assumption |]. exists s'. split; assumption. Qed.
 
 (* the oracle accepts every run of the model *)
